@@ -18,6 +18,10 @@ def base_dir():
     if not b:
         b = os.path.join(env.SHM, "xsim-%d" % os.getpid())
         os.environ["XSIM_BASE"] = b
+        import atexit
+
+        pid = os.getpid()
+        atexit.register(lambda: cleanup_base() if os.getpid() == pid else None)
     os.makedirs(b, exist_ok=True)
     return b
 
